@@ -7,6 +7,7 @@
 mod explore;
 mod keys;
 mod olpc;
+mod plain;
 mod props;
 mod report;
 mod util;
